@@ -91,15 +91,41 @@ def case_line(op, s, cfg):
     return "%s %s %d %s" % (op, hx(s), cfg[0], cfg[1])
 
 
+REF_NAMES = ["pesto", "tomato sauce", "./sauces/Hollandaise", "./base/dough", "../shared/stock", "Puré de papas",
+             "sub/dir/crème", "a.b", "pizza dough.v2"]
+REF_SPECIALS = [
+    "Serve with @@pesto{}.\n",
+    "Add @@./sauces/Hollandaise{150%ml} and @@tomato sauce{1%cup}.\n",
+    "@@pesto and @@./base/dough{1}(rested) then @&pesto{}\n",
+    "---\ntitle: Lasagne\n---\nLayer @@./base/dough{500%g} with @@tomato sauce{} and @cheese{200%g}.\n",
+    "@@missing recipe{} @@pesto|green sauce{2%tbsp} @@?optional/ref{}\n",
+    ">> servings: 2\n@@../shared/stock{1%l} ~{10%min} #pot\n",
+]
+
+
+def with_refs(text, rng):
+    """a generated recipe with one or two recipe references spliced in as an extra step"""
+    refs = []
+    for _ in range(rng.randint(1, 2)):
+        q = rng.choice(["{}", "{1}", "{200%g}", "{1/2%cup}", "{}(warm)"])
+        refs.append("@@" + rng.choice(REF_NAMES) + q)
+    step = "Serve with " + " and ".join(refs) + ".\n"
+    return (text if text.endswith("\n") else text + "\n") + "\n" + step
+
+
 def make_inputs(tier, rng):
     n = 400 if tier == "quick" else 3000
     g = [t for t, _, _, _ in pc.grec_texts(rng, n)]
+    # a fair share (30%) of the generated recipes refer to other recipes (`@@name{}`: COMPONENT_MODIFIERS, on in
+    # 3 of the 4 configurations), the construct whose analysis consults ParseOptions::recipe_ref_check
+    g = [with_refs(t, rng) if rng.random() < 0.3 else t for t in g]
     bad = [pc.mutate(t, rng) for t in g]
     full = pc.SIGMA_CORE + pc.SIGMA_MORE
     rnd = ["".join(rng.choice(full) for _ in range(rng.randint(1, 14))) for _ in range(n)]
     corpus = [unhx(c.split(" ")[0]) for c in common.load_corpus(PID)]
-    return list(dict.fromkeys(corpus + TABLE_SPECIALS + SHORT + g + bad + rnd)), {"grec": len(g), "mutations": len(bad),
-                                                                                "short_random": len(rnd), "fixed": len(TABLE_SPECIALS) + len(SHORT), "corpus": len(corpus)}
+    return list(dict.fromkeys(corpus + TABLE_SPECIALS + REF_SPECIALS + SHORT + g + bad + rnd)), {
+        "grec": len(g), "grec_with_recipe_refs": sum(1 for t in g if "@@" in t), "mutations": len(bad),
+        "short_random": len(rnd), "fixed": len(TABLE_SPECIALS) + len(REF_SPECIALS) + len(SHORT), "corpus": len(corpus)}
 
 
 def full_text(exe, line, mode="fresh"):
@@ -137,6 +163,59 @@ def shrink(exe, lines, mode, want, max_trials=80):
                 break
             n = min(len(pref), n * 2)
     return pref + [last]
+
+
+AMBIENT_VARS = {
+    "A": {"LANG": "tr_TR.UTF-8", "LC_ALL": "tr_TR.UTF-8", "LANGUAGE": "tr", "TZ": "Pacific/Kiritimati",
+          "COOKLANG_PATH": "{dir}", "COOKLANG_UNITS": "{dir}/units.toml", "COOKLANG_CONFIG": "{dir}/config",
+          "HOME": "{dir}/home", "XDG_CONFIG_HOME": "{dir}/home/.config", "NO_COLOR": "1", "RUST_LOG": "trace",
+          "RUST_BACKTRACE": "1"},
+    "B": {"LANG": "C", "LC_ALL": "POSIX", "LANGUAGE": "", "TZ": "UTC", "COOKLANG_PATH": "/nonexistent",
+          "COOKLANG_UNITS": "", "COOKLANG_CONFIG": "/dev/null", "HOME": "/nonexistent", "XDG_CONFIG_HOME": "/nonexistent",
+          "CLICOLOR_FORCE": "1", "RUST_LOG": "off", "RUST_BACKTRACE": "0"},
+}
+
+
+def make_ambient(root, names):
+    """two freshly created working directories under .build/: `full` holds `<name>.cook` for every recipe
+    reference of the inputs (also the spelling with a parent directory stripped), `empty` holds nothing.
+    -> {label: {"cwd": dir, "vars": {...}, "files": [relative paths]}}"""
+    import shutil
+    if os.path.exists(root):
+        shutil.rmtree(root)
+    full, empty = os.path.join(root, "full", "work"), os.path.join(root, "empty", "work")
+    os.makedirs(full)
+    os.makedirs(empty)
+    os.makedirs(os.path.join(root, "full", "home", ".config"))
+    files = []
+    top_full = os.path.join(root, "full")
+    for nm in sorted(names):
+        if not nm or "\0" in nm or nm.startswith("/") or len(nm.encode("utf-8")) > 200:
+            continue
+        # the path the lookup `<name>.cook` resolves to from the working directory root/full/work; one level of
+        # `../` stays inside root/full, anything that would leave it is skipped
+        rel = os.path.normpath(os.path.join("work", nm + ".cook"))
+        if rel.startswith("..") or os.path.isabs(rel) or os.path.basename(rel) == ".cook":
+            continue
+        path = os.path.join(top_full, rel)
+        try:
+            os.makedirs(os.path.dirname(path), exist_ok=True)
+            with open(path, "w") as f:
+                f.write("-- placeholder recipe\nMix @a{1}.\n")
+            files.append(rel)
+        except OSError:
+            pass
+    envs = {}
+    for label, cwd, top in (("A", full, os.path.join(root, "full")), ("B", empty, os.path.join(root, "empty"))):
+        envs[label] = {"cwd": cwd, "vars": {k: v.replace("{dir}", top) for k, v in AMBIENT_VARS[label].items()},
+                       "files": sorted(set(files)) if label == "A" else []}
+    return envs
+
+
+def ambient_env(e):
+    d = {"HIST_MODE": "spawn", "HIST_CWD": e["cwd"]}
+    d.update(e["vars"])
+    return d
 
 
 def first_diff(a, b):
@@ -238,6 +317,63 @@ def run(rep, tier, seed):
                           "input_hex": hx(k[1]), "op": k[0], "ext": k[2][0], "conv": k[2][1], "differing_calls": len(bad)}))
     stats["fresh_process_per_call"] = len(keys)
     stats["fresh_parser_shared_process_calls"] = len(keys)
+
+    # ambient perturbation: the same call alone in a process of its own, but started (A) in a new working
+    # directory that holds `<name>.cook` for every recipe reference of the inputs, with locale / time zone / HOME /
+    # COOKLANG_* variables changed, and (B) in a new empty directory with other values.  The baseline above ran in
+    # /verif with the caller's environment.  Same (text, extensions, converter) => same result, or C18 fails.
+    pk = list(dict.fromkeys((k[1], k[2]) for k in keys if "@" in k[1] and k[2][0] & 2))
+    rl = common.run_lines(exe, [case_line("p", s, cfg) for s, cfg in pk], env={"HIST_MODE": "refs"}, tag="c18refs")
+    ref_names = set()
+    inputs_with_refs = set()
+    for (s, cfg), l in zip(pk, rl):
+        if l != "-":
+            inputs_with_refs.add(s)
+            for h in l.split(","):
+                ref_names.add(unhx(h))
+    amb_root = os.path.join(common.BUILD, "c18-amb-%d" % os.getpid())
+    envs = make_ambient(amb_root, ref_names)
+    baseline_env = {"cwd": common.VERIF, "vars": {v: os.environ.get(v) for v in sorted(AMBIENT_VARS["A"])}, "files": []}
+    n_amb_mismatch = 0
+    amb_calls = 0
+    try:
+        for label in ("A", "B"):
+            # B (nothing on disk, like the baseline) on the calls whose input has a reference plus every third other
+            sel = keys if label == "A" else [k for i, k in enumerate(keys) if k[1] in inputs_with_refs or i % 3 == 0]
+            out = common.run_lines(exe, [case_line(*k) for k in sel], env=ambient_env(envs[label]), shards=16,
+                                   tag="c18amb" + label)
+            amb_calls += len(sel)
+            per_input = set()
+            for k, d in zip(sel, out):
+                if d != universe[k]:
+                    n_amb_mismatch += 1
+                    if (k[1], k[0]) in per_input or len(per_input) >= 12:
+                        continue
+                    per_input.add((k[1], k[0]))
+                    diff = None
+                    try:
+                        a = run_file(exe, [case_line(*k)], "spawn", env={"HIST_FULL": "1"})[0]
+                        b = run_file(exe, [case_line(*k)], "spawn", env=dict(ambient_env(envs[label]), HIST_FULL="1"))[0]
+                        diff = first_diff(b, a)
+                        diff = {"at": diff["at"], "perturbed": diff["history"], "baseline": diff["fresh"]}
+                    except common.Broken:
+                        pass
+                    hits.append((k[1], "op %s alone in a new process gives another result when the process starts in "
+                                       "another working directory / environment (%s)" % (k[0], label),
+                                 {"mode": "ambient", "case": case_line(*k), "input": k[1], "input_hex": hx(k[1]),
+                                  "op": k[0], "ext": k[2][0], "conv": k[2][1], "env_baseline": baseline_env,
+                                  "env_perturbed": {"label": label, "cwd_relative_to_root": os.path.relpath(envs[label]["cwd"], amb_root),
+                                                    "vars": AMBIENT_VARS[label], "files": envs[label]["files"]},
+                                  "recipe_references": sorted(ref_names), "diff": diff}))
+    finally:
+        import shutil
+        shutil.rmtree(amb_root, ignore_errors=True)
+    stats["ambient_calls"] = amb_calls
+    stats["ambient_mismatches"] = n_amb_mismatch
+    stats["ambient_environments"] = 2
+    stats["inputs_with_recipe_references"] = len(inputs_with_refs)
+    stats["distinct_recipe_reference_names"] = len(ref_names)
+    stats["ambient_files_created"] = len(envs["A"]["files"])
 
     def check_history(h, what):
         out = run_file(exe, [case_line(*k) for k in h], "hist")
@@ -354,7 +490,7 @@ def run(rep, tier, seed):
                           "LazyLock<FractionLookupTable> (src/quantity.rs 633-634), probed hash maps (convert/mod.rs "
                           "246-256, event_consumer.rs 106-111, 444-500); the parse function is a Section variable; "
                           "memory-level interleavings, Send/Sync soundness and std::sync::LazyLock are not modelled")
-    calls = stats["repeat_calls"] + stats["history_calls"] + thread_parses + len(keys)
+    calls = stats["repeat_calls"] + stats["history_calls"] + thread_parses + len(keys) + amb_calls
     rep.coverage.update({
         "evaluations": calls + len(keys), "distinct_nontrivial": distinct_results,
         "rule": "exploration in support of the proof, not a proof about schedules: (i) every input 3x in a row on one "
@@ -364,7 +500,9 @@ def run(rep, tier, seed):
                 "barrier, %d calls per thread over a common pool that includes scale+convert, first call of every thread "
                 "a scale+convert; every result compared with the same call made alone by a fresh "
                 "converter+parser in a process of its own (%d reference processes), and those again with fresh parsers "
-                "in 16 long-running processes; inputs: generated recipes, one-token mutations, short random strings, fixed "
+                "in 16 long-running processes; (iv) ambient perturbation: the reference calls again, each alone in a new process "
+                "started in a freshly created working directory holding <name>.cook for every recipe reference of the inputs "
+                "with LANG/LC_ALL/TZ/HOME/COOKLANG_*/RUST_LOG changed, and in an empty directory with other values; inputs: generated recipes, one-token mutations, short random strings, fixed "
                 "specials; distinct_nontrivial = distinct canonical results among the reference evaluations"
                 % (len(rep_hist), n_hist, hist_len, len(CONFIGS), len(jobs), n_threads, iters, len(keys)),
         "exhaustive": False,
@@ -374,6 +512,8 @@ def run(rep, tier, seed):
         "inventory_expected": None if expected is None else ["%s:%s" % x for x in expected],
         "inventory_locations": ["%s:%d %s (%s)" % (it["file"], it["line"], it["what"], it["kind"]) for it in inv["items"]],
         "inventory_file_rewritten": inv["changed"],
+        "hash_iteration_sites_advisory": ["%s:%d %s" % (it["file"], it["line"], it["what"]) for it in inv.get("advisory", [])],
+        "ambient_variables": AMBIENT_VARS,
         "schedules_explored": len(jobs), "histories_explored": len(histories) + len(rep_hist),
         "thread_count": n_threads, "builds": [b for b, _ in builds],
         "model_prediction": "map pure_parse (C18_history, C18_schedule): every call equals the same call alone; "
@@ -398,6 +538,10 @@ def run(rep, tier, seed):
         "(token-level scanner gen/gen_shared.py over src/**/*.rs) and on Rust's ownership rules for locals",
         "memory-level interleavings, Send/Sync soundness and std::sync::LazyLock/Once are the runtime's, not the model's",
         "thread schedules are whatever the OS produced in the explored rounds; they are not enumerated",
+        "ambient state is perturbed along the axes working directory (files named after the inputs' recipe references), "
+        "locale/time-zone/HOME/COOKLANG_*/RUST_* variables; clock, pid and randomness vary between processes anyway; "
+        "the ambient-read inventory is a token-level scan (a read reached through a third-party crate or a re-exported "
+        "alias is not seen); HashMap iteration is pinned on the parse path only and found by a same-file name heuristic",
         "state inside third-party crates (yansi's colour condition, tracing's dispatcher) is outside the inventory; "
         "report rendering is not part of the compared projection",
     ]
@@ -410,6 +554,16 @@ def setup():
 
 
 def replay(rp):
+    try:
+        return _replay(rp)
+    finally:
+        try:
+            os.rmdir(os.path.join(common.BUILD, "c18-run-%d" % os.getpid()))
+        except OSError:
+            pass
+
+
+def _replay(rp):
     exe = hist_exe(release=rp["replay"].get("build") == "release")
     r = rp["replay"]
     if r.get("mode") == "history":
@@ -423,6 +577,17 @@ def replay(rp):
         bad = sum(int(l.split(" ")[2]) for l in out)
         print("differing concurrent results: %d" % bad)
         return 1 if bad else 0
+    if r.get("mode") == "ambient":
+        root = os.path.join(common.BUILD, "c18-amb-replay-%d" % os.getpid())
+        envs = make_ambient(root, set(r.get("recipe_references", [])))
+        try:
+            a = run_file(exe, [r["case"]], "spawn")[0]
+            b = run_file(exe, [r["case"]], "spawn", env=ambient_env(envs[r["env_perturbed"]["label"]]))[0]
+        finally:
+            import shutil
+            shutil.rmtree(root, ignore_errors=True)
+        print("baseline (cwd /verif): %s  perturbed: %s" % (a, b))
+        return 0 if a == b else 1
     if r.get("mode") == "process":
         a = run_file(exe, [r["case"]], "spawn")[0]
         b = run_file(exe, [r["case"]], "spawn")[0]
